@@ -3,11 +3,11 @@
 # from the offline wheelhouse. Idempotent; no network.
 set -e
 cd "$(dirname "$0")"
-if [ ! -x .venv/bin/python ] || ! .venv/bin/python -c "import z3" 2>/dev/null; then
+if [ ! -x .venv/bin/python ] || ! .venv/bin/python -c "import z3, numpy" 2>/dev/null; then
   rm -rf .venv
   /venv/bin/python -m venv .venv
   SP=$(.venv/bin/python -c "import sysconfig; print(sysconfig.get_paths()['purelib'])")
   echo "import site; site.addsitedir('/venv/lib/python3.12/site-packages')" > "$SP/_base.pth"
-  PIP_NO_INDEX=1 .venv/bin/python -m pip install -q --no-index --find-links /opt/veriftools/wheels z3-solver crosshair-tool >/dev/null
+  PIP_NO_INDEX=1 .venv/bin/python -m pip install -q --no-index --find-links /opt/veriftools/wheels z3-solver crosshair-tool numpy >/dev/null
 fi
 .venv/bin/python -c "import z3, pyrefact; print('overlay ok: z3', z3.get_version_string())"
